@@ -16,6 +16,7 @@ extern const std::vector<std::string> kAccOptions;
 // Base scenario for a generated model: files{stub.nl}, argv, expect{nvars,ncons,nobjs,...}
 sim::Json model_scenario(const gen::Model& m, bool ampl_flag, bool binary = false);   // binary: little-endian binary NL encoding of the same model
 
+long apply_long_names(sim::Rng& rng, gen::Model& m, bool allow_duplicates = true);
 enum NamesMode { NAMES_NONE = 0, NAMES_FULL, NAMES_SHORT, NAMES_CRLF, NAMES_TORN, NAMES_EMPTY_FIRST, NAMES_COL_ONLY, NAMES_MODES };
 // Adds stub.col / stub.row in the given shape; records "names_mode" in the scenario.
 void add_names_files(sim::Json& sc, const gen::Model& m, int mode);
